@@ -110,6 +110,18 @@ func c12Run(t failer, c *c12Case) {
 	seqF, _ := bexpr.CreateFilter(text)
 	wantOut, wantErr, _ := safeExecute(seqF, contVal)
 	wantSnap := uni.Snapshot(wantOut)
+	// the same elements as a map (Execute ranges over maps in random order; the result is a set)
+	mcont := &uni.Node{T: uni.MapOf(uni.Scalar(uni.KString), c.Pool[0].T)}
+	for i, e := range elems {
+		if i >= 40 {
+			break
+		}
+		mcont.Keys = append(mcont.Keys, uni.Str("k"+strconv.Itoa(i)))
+		mcont.Elems = append(mcont.Elems, e)
+	}
+	mcontVal := mcont.Interface()
+	wantMOut, wantMErr, _ := safeExecute(seqF, mcontVal)
+	wantMSnap := uni.Snapshot(wantMOut)
 
 	before := raceLogSize()
 	// fresh shared instances: first use happens concurrently
@@ -137,6 +149,14 @@ func c12Run(t failer, c *c12Case) {
 					if pan != nil || (err == nil) != (wantErr == nil) || uni.Snapshot(out) != wantSnap {
 						mu.Lock()
 						failures = append(failures, fmt.Sprintf("goroutine %d call %d: Execute gave (%s, %v, panic %v), sequentially (%s, %v)", g, call, uni.Snapshot(out), err, pan, wantSnap, wantErr))
+						mu.Unlock()
+					}
+				}
+				if call%3 == 1 {
+					out, err, pan := safeExecute(flt, mcontVal)
+					if pan != nil || (err == nil) != (wantMErr == nil) || uni.Snapshot(out) != wantMSnap {
+						mu.Lock()
+						failures = append(failures, fmt.Sprintf("goroutine %d call %d: Execute on the map gave (%s, %v, panic %v), sequentially (%s, %v)", g, call, uni.Snapshot(out), err, pan, wantMSnap, wantMErr))
 						mu.Unlock()
 					}
 				}
